@@ -48,6 +48,7 @@ type ParamSpec struct {
 type MacroSpec struct {
 	Go   string `json:"go"`
 	Expr string `json:"expr"` // Lean expression (may mention parameters)
+	Type string `json:"type"` // Lean type of Expr (needed only when the macro is used as an effect argument)
 }
 
 type EffectSpec struct {
@@ -89,10 +90,21 @@ type tr struct {
 	info    *types.Info
 	spec    *FuncSpec
 	atoms   map[string]string // go text -> lean expr
+	atomTy  map[string]string // go text -> lean type (parameters, typed macros)
 	locals  map[types.Object]string
 	callees map[string]string // types.Func FullName -> lean name
 	effects map[string]*EffectSpec
 	assigns map[string]bool
+	// effect mode for a function WITH a result: terms have type `List Eff × R`
+	effRes bool
+}
+
+// cons renders "emit effect e, then rest" for the current mode.
+func (t *tr) cons(e, rest string) string {
+	if t.effRes {
+		return "(Eff.pre " + e + " " + rest + ")"
+	}
+	return "(" + e + " :: " + rest + ")"
 }
 
 func (t *tr) text(n ast.Node) string {
@@ -355,11 +367,17 @@ func (t *tr) block(list []ast.Stmt, k func() string) string {
 	}
 	switch x := s.(type) {
 	case *ast.ReturnStmt:
-		if t.spec.Effects {
+		if t.spec.Effects && !t.effRes {
 			if len(x.Results) == 0 {
 				return "[]"
 			}
-			failf("effect mode: return with values")
+			failf("effect mode: return with values in a function without result")
+		}
+		if t.effRes {
+			if len(x.Results) != 1 {
+				failf("effect mode: exactly one result supported")
+			}
+			return "([], " + t.expr(x.Results[0]) + ")"
 		}
 		if len(x.Results) == 1 {
 			return t.expr(x.Results[0])
@@ -419,7 +437,7 @@ func (t *tr) block(list []ast.Stmt, k func() string) string {
 			failf("unsupported multi-assign %s", t.text(x))
 		}
 		if t.spec.Effects && t.assigns[t.text(x.Lhs[0])] {
-			return fmt.Sprintf("(Eff.set %q (%s) :: %s)", t.text(x.Lhs[0]), t.toVal(x.Rhs[0]), next())
+			return t.cons(fmt.Sprintf("(Eff.set %q (%s))", t.text(x.Lhs[0]), t.toVal(x.Rhs[0])), next())
 		}
 		id, ok := x.Lhs[0].(*ast.Ident)
 		if !ok {
@@ -522,7 +540,7 @@ func (t *tr) block(list []ast.Stmt, k func() string) string {
 					for _, i := range es.Args {
 						args = append(args, t.toVal(call.Args[i]))
 					}
-					return fmt.Sprintf("(Eff.call %q [%s] :: %s)", es.Name, strings.Join(args, ", "), next())
+					return t.cons(fmt.Sprintf("(Eff.call %q [%s])", es.Name, strings.Join(args, ", ")), next())
 				}
 			}
 		}
@@ -534,7 +552,12 @@ func (t *tr) block(list []ast.Stmt, k func() string) string {
 
 // toVal renders an expression as a Val (Nat-coded) for effect arguments.
 func (t *tr) toVal(e ast.Expr) string {
-	lt := leanType(t.info.TypeOf(e))
+	var lt string
+	if ty, ok := t.atomTy[t.text(e)]; ok && ty != "" {
+		lt = ty
+	} else {
+		lt = leanType(t.info.TypeOf(e))
+	}
 	v := t.expr(e)
 	switch lt {
 	case "Bool":
@@ -686,15 +709,17 @@ func main() {
 			pos := l.p.Fset.Position(l.fd.Pos())
 			si.File, _ = filepath.Rel(*repo, pos.Filename)
 			si.Line = pos.Line
-			t := &tr{fset: l.p.Fset, info: l.p.TypesInfo, spec: fs, atoms: map[string]string{},
+			t := &tr{fset: l.p.Fset, info: l.p.TypesInfo, spec: fs, atoms: map[string]string{}, atomTy: map[string]string{},
 				locals: map[types.Object]string{}, callees: callees, effects: map[string]*EffectSpec{}, assigns: map[string]bool{}}
 			src := t.text(l.fd)
 			si.SHA256 = fmt.Sprintf("%x", sha256.Sum256([]byte(src)))
 			for _, p := range fs.Params {
 				t.atoms[p.Go] = p.Lean
+				t.atomTy[p.Go] = p.Type
 			}
 			for _, mc := range fs.Macros {
 				t.atoms[mc.Go] = mc.Expr
+				t.atomTy[mc.Go] = mc.Type
 			}
 			for i := range fs.Calls {
 				t.effects[fs.Calls[i].Go] = &fs.Calls[i]
@@ -702,6 +727,7 @@ func main() {
 			for _, a := range fs.Assigns {
 				t.assigns[a] = true
 			}
+			t.effRes = fs.Effects && l.fd.Type.Results != nil && len(l.fd.Type.Results.List) == 1
 			var body string
 			func() {
 				defer func() {
@@ -723,12 +749,12 @@ func main() {
 			}()
 			sites = append(sites, si)
 			if si.Error != "" {
-				fmt.Fprintf(&b, "-- TRANSLATION FAILURE %s (%s:%d): %s\n\n", fs.Lean, si.File, si.Line, si.Error)
+				fmt.Fprintf(&b, "-- TRANSLATION FAILURE %s (%s:%d): %s\n\n", fs.Lean, si.File, si.Line, strings.Join(strings.Fields(si.Error), " "))
 				failed++
 				continue
 			}
 			ret := fs.Ret
-			if fs.Effects {
+			if fs.Effects && !t.effRes {
 				ret = "List Eff"
 			}
 			if ret == "" {
@@ -746,6 +772,9 @@ func main() {
 					}()
 					ret = leanType(l.p.TypesInfo.TypeOf(res.List[0].Type))
 				}()
+				if t.effRes {
+					ret = "List Eff × " + ret
+				}
 			}
 			fmt.Fprintf(&b, "/-- %s:%d  %s -/\n", si.File, si.Line, strings.SplitN(src, "\n", 2)[0])
 			fmt.Fprintf(&b, "def %s", fs.Lean)
